@@ -28,6 +28,7 @@ import (
 	"os"
 	"os/exec"
 	"sort"
+	"strconv"
 	"strings"
 	"testing"
 	"time"
@@ -482,13 +483,17 @@ func plans() []plan {
 	return ps
 }
 
+func scenarioJob(p plan, dl time.Time) vsched.Job {
+	return vsched.Job{Sc: scenario(p.p), Cfg: vsched.Config{Bound: p.bound, Cache: true, Iterate: true, Deadline: dl}, Weight: len(sets[p.p.Set])*10 + p.p.Depth*5 + p.p.Threads*20}
+}
+
 func TestC18(t *testing.T) {
 	dnsmem.Install(zone())
 	pl := plans()
 	dl := time.Now().Add(ev.Pick(150*time.Second, 40*time.Minute))
 	jobs := make([]vsched.Job, len(pl))
 	for i, p := range pl {
-		jobs[i] = vsched.Job{Sc: scenario(p.p), Cfg: vsched.Config{Bound: p.bound, Cache: true, Iterate: true, Deadline: dl}, Weight: len(sets[p.p.Set])*10 + p.p.Depth*5 + p.p.Threads*20}
+		jobs[i] = scenarioJob(p, dl)
 	}
 	if rp := os.Getenv("VERIF_REPLAY"); rp != "" && !vsched.IsChild() {
 		scs := make([]vsched.Scenario, len(jobs))
@@ -507,8 +512,50 @@ func TestC18(t *testing.T) {
 		return
 	}
 	os.Setenv("VSCHED_GOMAXPROCS", "2") // the in-process DNS server and dnscache use real goroutines
+	if sub := os.Getenv("C18_SUBSET"); sub != "" && vsched.IsChild() {
+		i, _ := strconv.Atoi(sub)
+		jobs = []vsched.Job{jobs[i]} // a single scenario explored once more (see below)
+	}
 	R := ev.New("C18")
 	stats := vsched.ExploreAll(jobs, 16, "TestC18")
+	// A tree-level finding ("from this state address X is never dialled again") is a statement about ALL executions of
+	// a scenario; it is only as good as the determinism of every one of them, and name resolution runs through the Go
+	// resolver (real goroutines, address sorting that probes the host's routing). Such a finding is therefore only
+	// believed if two further explorations of the same scenario, in fresh processes, show it again - as the
+	// schedule-level findings are only believed when they replay identically.
+	for i, st := range stats {
+		tree := false
+		for _, v := range st.Violations {
+			tree = tree || (v.Choices == nil && v.Stable)
+		}
+		if !tree {
+			continue
+		}
+		recurred := 0
+		for k := 0; k < 2; k++ {
+			os.Setenv("C18_SUBSET", strconv.Itoa(i))
+			again := vsched.ExploreAll([]vsched.Job{scenarioJob(pl[i], dl)}, 1, "TestC18")
+			os.Unsetenv("C18_SUBSET")
+			for _, v := range again[0].Violations {
+				if v.Choices == nil && v.Stable {
+					recurred++
+					break
+				}
+			}
+		}
+		if recurred < 2 {
+			var kept []vsched.Violation
+			for _, v := range st.Violations {
+				if v.Choices == nil && v.Stable {
+					fmt.Printf("NOTE: tree-level finding in %s recurred in %d of 2 further explorations and is not reported: %s\n", st.Scenario, recurred, v.Message)
+					continue
+				}
+				kept = append(kept, v)
+			}
+			st.Violations = kept
+			st.Capped = strings.TrimSpace(st.Capped + " tree-level finding not confirmed by re-exploration")
+		}
+	}
 	R.Rule = "every sequence of shuffle outcomes (each Fisher-Yates step is an explored choice) for dial histories of the stated depth on every address set, and every interleaving (bounded preemptions) of two concurrently dialling threads; tree oracle: from every reachable state the next dial reaches every resolved address; distinct+non-trivial = distinct dial histories per scenario"
 	R.Assume("dnscache, singleflight, context and the Go resolver run uninstrumented (they never wait for a managed thread); name resolution is answered by an in-process DNS server behind net.DefaultResolver")
 	R.Assume("unsynchronised memory accesses between two hooked operations are not interleaved by the cooperative scheduler: the race companion (free-running, -race, unrewritten code) covers those and is auxiliary")
